@@ -1,5 +1,5 @@
 """Lazily loaded Programs per build configuration."""
-from . import facts, mir, flow, roles
+from . import facts, mir, flow, roles, inline
 
 _progs = {}
 _writes = {}
@@ -7,7 +7,9 @@ _writes = {}
 
 def prog(config="K1"):
     if config not in _progs:
-        _progs[config] = mir.Program(facts.load(config))
+        f, log = inline.apply(facts.load(config))
+        _progs[config] = mir.Program(f)
+        _progs[config].inlined = log
         roles.apply(_progs[config])
     return _progs[config]
 
